@@ -104,6 +104,71 @@ fn user_null_probe(t: i32, st: &Shape, complete: bool) -> Option<String> {
     bad
 }
 
+/// Histories the word enumeration does not contain: an index-less writer, a long accepted
+/// prefix, a THIRD type offered after a second one was refused, and a first shape whose type is
+/// NullShape (a user-defined one: the library's own null shape is not writable). Each history
+/// is a list of (shape, accepted?) and is compared with the same history without the refused calls.
+fn extra_histories(t: i32, u: i32, v: i32, st: &Shape, su: &Shape, sv: &Shape) -> Vec<(String, String)> {
+    #[derive(Clone, Copy)]
+    enum Call<'a> {
+        W(&'a Shape, i32),
+        Null,
+        F,
+    }
+    let mut bad: Vec<(String, String)> = vec![];
+    let run = |calls: &[(Call, bool)], with_index: bool, file_type: i32, bad: &mut Vec<(String, String)>, name: &str| -> Vec<Vec<u8>> {
+        let (a, b) = (Dest::new(), Dest::new());
+        {
+            let mut w = if with_index { ShapeWriter::with_shx(a.clone(), b.clone()) } else { ShapeWriter::new(a.clone()) };
+            for (i, (c, accepted)) in calls.iter().enumerate() {
+                a.set_epoch(i + 1);
+                b.set_epoch(i + 1);
+                let (res, offered) = match c {
+                    Call::W(s, ty) => (write_one(&mut w, s), *ty),
+                    Call::Null => (w.write_shape(&UserNull), 0),
+                    Call::F => (w.finalize(), -1),
+                };
+                if *accepted {
+                    if let Err(e) = res {
+                        bad.push((format!("{}/accepted-call-failed", name), format!("call {}: {}", i, err_class(&e))));
+                    }
+                } else {
+                    match res {
+                        Err(Error::MismatchShapeType { requested, actual }) if requested as i32 == file_type && actual as i32 == offered => {}
+                        Err(Error::MismatchShapeType { requested, actual }) => bad.push((format!("{}/result", name), format!("call {} named ({}, {}), the file type is {} and the offered type {}", i, requested, actual, type_name(file_type), type_name(offered)))),
+                        Err(e) => bad.push((format!("{}/result", name), format!("call {}: {}", i, err_class(&e)))),
+                        Ok(()) => bad.push((format!("{}/result", name), format!("call {}: a shape of type {} was accepted by a writer holding {}", i, type_name(offered), type_name(file_type)))),
+                    }
+                    if !a.ops_in_epoch(i + 1).is_empty() || !b.ops_in_epoch(i + 1).is_empty() {
+                        bad.push((format!("{}/io-during-reject", name), format!("call {}", i)));
+                    }
+                }
+            }
+            a.set_epoch(9999);
+            b.set_epoch(9999);
+        }
+        vec![a.data(), b.data()]
+    };
+    let w = |s, ty| Call::W(s, ty);
+    let histories: Vec<(&str, bool, i32, Vec<(Call, bool)>)> = vec![
+        ("index-less-writer", false, t, vec![(w(st, t), true), (w(su, u), false), (w(st, t), true), (Call::F, true), (w(sv, v), false), (w(st, t), true)]),
+        ("long-accepted-prefix", true, t, (0..7).map(|_| (w(st, t), true)).chain([(w(su, u), false), (w(sv, v), false), (w(st, t), true), (w(st, t), true)]).collect()),
+        ("third-type", true, t, vec![(w(st, t), true), (w(su, u), false), (w(sv, v), false), (w(su, u), false), (w(st, t), true)]),
+        ("first-type-NullShape", true, 0, vec![(Call::Null, true), (w(st, t), false), (Call::Null, true), (Call::F, true), (w(su, u), false)]),
+        ("first-type-NullShape/index-less", false, 0, vec![(Call::Null, true), (w(st, t), false), (Call::Null, true)]),
+    ];
+    for (name, with_index, file_type, calls) in histories {
+        let got = run(&calls, with_index, file_type, &mut bad, name);
+        let kept: Vec<(Call, bool)> = calls.iter().filter(|(_, acc)| *acc).cloned().collect();
+        let mut ignore = vec![];
+        let want = run(&kept, with_index, file_type, &mut ignore, name);
+        if got != want {
+            bad.push((format!("{}/final-bytes", name), "the files differ from those of the same history without the refused calls".to_string()));
+        }
+    }
+    bad
+}
+
 fn word_str(w: &[u8]) -> String {
     w.iter().map(|l| ["W_T", "W_U", "F"][*l as usize]).collect::<Vec<_>>().join(" ")
 }
@@ -326,6 +391,26 @@ pub fn run(ctx: &Ctx) -> Report {
                     Ok(None) => {}
                     Ok(Some(what)) => rep.violation(&format!("({},NullShape)/user-defined-shape", type_name(t)), &case, J::s(what)),
                     Err(p) => rep.violation(&format!("({},NullShape)/panic", type_name(t)), &case, J::s(p.class())),
+                }
+            }
+        }
+        if !complete {
+            // histories outside the word enumeration (third type V, index-less writer, long prefix, NullShape first)
+            let v = types[(types.iter().position(|x| *x == u).unwrap() + 3) % types.len()];
+            let v = if v == t { types[(types.iter().position(|x| *x == v).unwrap() + 1) % types.len()] } else { v };
+            let v = if v == u { types[(types.iter().position(|x| *x == v).unwrap() + 1) % types.len()] } else { v };
+            let sv = gen::shape(v, &mut r, &c);
+            let case = format!("c10:T{}:U{}:V{}:extra", t, u, v);
+            if ctx.want(&case) && v != t && v != u {
+                rep.eval();
+                rep.count("extra_histories(index-less writer, long prefix, third type, NullShape first)", 5);
+                match panicmon::catch(|| extra_histories(t, u, v, &st, &su, &sv)) {
+                    Err(p) => rep.violation(&format!("({},{})/extra/panic", type_name(t), type_name(u)), &case, J::s(p.class())),
+                    Ok(bad) => {
+                        for (sig, what) in bad {
+                            rep.violation(&format!("extra/{}", sig), &case, J::obj(vec![("first_type_T", J::s(type_name(t))), ("second_type_U", J::s(type_name(u))), ("third_type_V", J::s(type_name(v))), ("what", J::s(what))]));
+                        }
+                    }
                 }
             }
         }
